@@ -145,8 +145,9 @@ Section Costing.
     '(dpp2, duops2, st') <- store_part m lk rt dpp duops ;;
     mx <- list_max N dpp2 ;;
     tp <- match e_tp e with Some t => Ok (pymax mx t) | None => Err EType end ;;
-    lat0 <- match e_lt e with Some l => Ok l | None => Err EType end ;;
+    (* `latency += get_load_latency(..)`: the right-hand side (KeyError) is evaluated before None + x (TypeError) *)
     ll <- (if lk_has_ld lk then load_latency m rt else Ok (n0 N)) ;;
+    lat0 <- match e_lt e with Some l => Ok l | None => Err EType end ;;
     let lat := nadd N (nadd N lat0 ll) (n0 N) in            (* + get_store_latency(...) = 0 *)
     rpp <- avg_pressure N (m_ports m) (e_uops e) ;;
     Ok (mkcost (match e_uops e with
